@@ -4,7 +4,7 @@
 // ASSUME: GALOIS_DIE/GALOIS_SYS_DIE/GALOIS_ASSERT keep their abort() but drop the iostream message formatting; a reached abort() is an assertion failure
 // ASSUME: LargeArray's deleter (largeFreer) is munmap; FileGraph::node_degrees is never allocated here
 // ASSUME: FileGraph objects are heap-allocated and not destroyed (the std::deque teardown costs 15 s per object in the solver and is not part of the property)
-// OB: ob_offsets_v1 tier=quick unwind=8 unwindset=g__ZN6galois6graphs9FileGraph10fromArraysEPmmPvmPcmmmbi.3:26,g__ZN6galois6graphs9FileGraph10fromArraysEPmmPvmPcmmmbi.12:26 timeout=300 params=24,3 bounds="in-memory sub-range view (fromArrays with nodeOffset/edgeOffset, as the FileGraph copy constructor builds it) of a version-1 graph with 2 nodes and 3 edges: all 24 consistent (node range, edge range) tuples, edge data 0/4/8 bytes (72 queries); out-index (global edge ids), destinations, data symbolic" desc="begin/end, edge_begin/edge_end (clamped to the edge range, shifted by edgeOffset), getEdgeDst, getEdgeData of a sub-range graph equal the whole graph's; also the copy constructor reproduces the view"
+// OB: ob_offsets_v1 tier=quick unwind=8 unwindfn=vf_byte_:26 timeout=300 params=24,3 bounds="in-memory sub-range view (fromArrays with nodeOffset/edgeOffset, as the FileGraph copy constructor builds it) of a version-1 graph with 2 nodes and 3 edges: all 24 consistent (node range, edge range) tuples, edge data 0/4/8 bytes (72 queries); out-index (global edge ids), destinations, data symbolic" desc="begin/end, edge_begin/edge_end (clamped to the edge range, shifted by edgeOffset), getEdgeDst, getEdgeData of a sub-range graph equal the whole graph's; also the copy constructor reproduces the view"
 // OB: ob_endian tier=quick unwind=4 timeout=120 bounds="all 32- and 64-bit values" desc="Endian.h: bswap32/64 are involutions and equal the byte-reversal definition; the little-endian conversions (le..toh, htole..) are the identity on this host and inverse pairs; htobe32/64 reverse the bytes and are involutions"
 #include "C12_common.h"
 
